@@ -618,6 +618,12 @@ V("f-mcs-ignore-default-sorted-in-place", "silent", ["C15"], OPT, "        xMins
 V("f-mcs-ignore-default-extended", "fire", ["C15", "C12"], OPT, "        xMins: list[set[int]] = []\n", "        ignore.extend(k for k, c in self.epistemic_state['nf_cnf_dict'].items() if not c)\n        xMins: list[set[int]] = []\n",
   note="round 5: the shared default list grows with every call")
 
+WR = "parser/Wrappers.py"
+V("s-parse-formula-cached", "silent", ["C10"], WR, "def parse_formula(string: str):\n", "@functools.lru_cache(maxsize=64)\ndef parse_formula(string: str):\n",
+  more=((WR, "import logging\nimport os\n", "import functools\nimport logging\nimport os\n", 0),), note="formulas are immutable hash-consed nodes: keeping them is harmless")
+V("f-parse-ckb-cached", "fire", ["C10"], WR, "def parseCKB(ckbs_string):\n", "@functools.lru_cache(maxsize=64)\ndef parseCKB(ckbs_string):\n",
+  more=((WR, "import logging\nimport os\n", "import functools\nimport logging\nimport os\n", 0),), note="round 5: the parsed base is mutable and handed out again")
+
 
 def main():
     hv = os.path.join(HERE, "harvested.json")
